@@ -17,10 +17,16 @@ import (
 // S1 is the fixed struct type of "struct" descriptions: exported fields A (any), B (any),
 // N (any), and an unexported field c.
 type S1 struct {
-	A interface{}
-	B interface{}
-	N interface{}
-	c int
+	A     interface{}
+	B     interface{}
+	N     interface{}
+	Inner // embedded: its field P is promoted
+	c     int
+}
+
+// Inner is embedded in S1.
+type Inner struct {
+	P interface{}
 }
 
 type Host interface {
@@ -185,6 +191,10 @@ func Build(d any, h Host) (interface{}, error) {
 			m[k] = int(v.(int64))
 		}
 		return m, nil
+	case "nilmap":
+		return map[string]interface{}(nil), nil
+	case "nilslice":
+		return []interface{}(nil), nil
 	case "imap":
 		return map[int]int{1: 1}, nil
 	case "struct", "ptrstruct":
@@ -205,6 +215,8 @@ func Build(d any, h Host) (interface{}, error) {
 				s.B = x
 			case "N":
 				s.N = x
+			case "P":
+				s.P = x
 			default:
 				return nil, fmt.Errorf("struct field %s not in S1", k)
 			}
